@@ -392,6 +392,11 @@ func (c *child) exec(plan *Plan) *Result {
 	}
 }
 
+// replayAttempter: how many attempts a plan may need to reproduce (1 = exact).
+type replayAttempter interface {
+	ReplayAttempts(p *Plan) int
+}
+
 type caseNarrower interface {
 	NarrowCase(p *Plan, k int) *Plan
 }
@@ -750,13 +755,28 @@ func minimise(p Property, plan *Plan, res *Result) (*Plan, *Result, int) {
 	// Every candidate runs in a FRESH child: the library has process-global
 	// state, and a candidate must not "reproduce" thanks to what an earlier
 	// candidate left behind in the same process.
-	run := func(q *Plan) *Result {
+	once := func(q *Plan) *Result {
 		c, err := startChild(p, childOpts{})
 		if err != nil {
 			return &Result{Verdict: "infra"}
 		}
 		defer func() { c.close() }()
 		return c.exec(q)
+	}
+	// A plan the property declares not exactly replayable (C12's parallel
+	// burst) is given several attempts to show the violation again.
+	run := func(q *Plan) *Result {
+		n := 1
+		if ra, ok := p.(replayAttempter); ok {
+			n = max(1, ra.ReplayAttempts(q))
+		}
+		var r *Result
+		for i := 0; i < n; i++ {
+			if r = once(q); r.Verdict == "violation" {
+				break
+			}
+		}
+		return r
 	}
 	// First make sure the starting plan reproduces (it may be the narrowed one).
 	cur, curRes := plan, res
@@ -869,6 +889,9 @@ func replayMain(path string) int {
 		// C12 own the pool): a violation that is really a bank-recycling
 		// defect may need more than one attempt here; C10 replays exactly.
 		tries = 5
+	}
+	if ra, ok := p.(replayAttempter); ok {
+		tries = max(tries, ra.ReplayAttempts(rf.Plan))
 	}
 	for i := 0; i < tries; i++ {
 		c, err := startChild(p, childOpts{})
